@@ -189,7 +189,6 @@ func (pc *PathCounter) step(ins ssa.Instruction, st PCSet) PCSet {
 	return st
 }
 
-
 // phiEdgeEval builds a condition evaluator for the paths that enter block
 // join through predecessor index edge: phis of join take their edge value.
 func phiEdgeEval(join *ssa.BasicBlock, edge int) func(ssa.Value) (bool, bool) {
